@@ -103,7 +103,9 @@ DECOY_MACROS = ["println", "myinfo", "infox", "info2", "other::info", "log::info
                 "format", "write", "_info", "Info", "INFO", "log::Info", "xlog::warn", "warning", "errorr"]
 COMMENT_DECOYS = ["// info!(\"commented\");", "/* warn!(\"commented\"); */", "/// error!(\"doc\");", "//! debug!(\"inner doc\");",
                   "/* multi\n   info!(\"line\");\n   comment */", "//info!(\"tight\")", "/** trace!(\"docblock\") */",
-                  "// log::info!(target: \"t\", \"x\");"]
+                  "// log::info!(target: \"t\", \"x\");",
+                  # a bare CR does not end a line comment (only \n does): the text after it is still comment
+                  "// cr\rinfo!(\"after a bare cr\");", "// x\r    warn!(\"still comment\");"]
 DIRECTIVES = {
     "ignore": ["// breadlog:ignore", "//breadlog:ignore", "//   BREADLOG:IGNORE   ", "/* breadlog:ignore */",
                "/*Breadlog:Ignore*/", "// BreadLog:IGNORE"],
